@@ -263,6 +263,16 @@ def unit_unbounded_copy(fname, nparams, ptype, twin=False):
                 continue
             seen.add(key); n += 1
             bounded = nm not in UNBOUNDED
+            if not bounded and len(e.args) >= 2:
+                # an unbounded copy is admissible when the path has tested the length of its source against a capacity the caller handed in:
+                # pc ==> strlen(source) + 1 <= <an integer parameter of the function>
+                lens = [x for x in s.events if _short(x) == "strlen" and x.args and x.args[-1] is e.args[1] and s.events.index(x) < s.events.index(e) and getattr(x, "result", None) is not None]
+                caps = [tm.sym("P%d_%s" % (k_, pr_.get("name", "arg%d" % k_)), "I") for k_, pr_ in enumerate(A.params_of(fn)) if k_ > 0 and "*" not in pr_.get("type", {}).get("qualType", "")]
+                for x in lens:
+                    for cap in caps:
+                        L_ = ex.coerce(x.result, "I")
+                        if B.z3_prove(list(s.pc) + [tm.le(tm.num(0, "I"), L_)], tm.le(tm.add(L_, tm.num(1, "I")), cap))[0] == "proved":
+                            bounded = True
             if twin:
                 bounded = not bounded
             r.add("`%s`.copy_into_the_callers_buffer_is_limited_by_a_capacity" % key[:60], DISCHARGED if bounded else FAILED, "symex", 0,
@@ -274,6 +284,45 @@ def unit_unbounded_copy(fname, nparams, ptype, twin=False):
     for m in re.finditer(re.escape(fname) + r"\((\w+),", t):
         sites.append(m.group(1))
     r.notes.append("buffers handed in at the call sites in PBasic.cpp: %s" % sorted(set(sites)))
+    # the capacity handed in at every call site is the true capacity of the buffer handed in with it
+    if len(A.params_of(fn)) >= 3:
+        from vf import callsites as CS
+        ncall = 0
+        for q2 in sorted(set(A.enclosing_functions(PB, fname + "("))) if hasattr(A, "enclosing_functions") else []:
+            pass
+        tu = A.load_tu(PB) if hasattr(A, "load_tu") else None
+        for host in ("PBasic::exec", "PBasic::cmdrun"):
+            try:
+                hf = A.find_function(PB, host)
+            except Exception:
+                continue
+            for call in CS.find_calls(hf, fname, len(A.params_of(fn))):
+                ncall += 1
+                a = call["inner"][1:]
+                cap, desc = CS.array_capacity(a[0])
+                captxt = A.squeeze(text_of(PB, a[1]))
+                buf = CS.strip_casts(a[0]); bname = buf.get("referencedDecl", {}).get("name") or buf.get("name") or "?"
+                if cap is not None:
+                    okc = captxt in ("sizeof(%s)" % bname, "sizeof%s" % bname, str(cap)) or (captxt.isdigit() and int(captxt) <= cap)
+                    if twin: okc = not okc
+                    r.add("call_in_%s.capacity_handed_in_is_the_size_of_the_array_%s[%d]" % (host.split("::")[-1], bname, cap), DISCHARGED if okc else FAILED, "ast-facts", 0, captxt, kind="callsite")
+                else:
+                    # a heap buffer: the capacity expression is the element count of the allocation that initialises the pointer in the same function
+                    alloc = None
+                    for x in A.walk(hf):
+                        if x.get("kind") == "BinaryOperator" and x.get("opcode") == "=" and A.squeeze(text_of(PB, x["inner"][0])) == bname:
+                            for y in A.walk(x["inner"][1]):
+                                if y.get("kind") in ("CallExpr", "CXXMemberCallExpr") and "alloc" in A.squeeze(text_of(PB, y["inner"][0])):
+                                    alloc = y
+                    okc = False; det = "no allocation of %s found" % bname
+                    if alloc is not None:
+                        args = [A.squeeze(text_of(PB, z)) for z in alloc["inner"][1:]]
+                        strip = lambda t: re.sub(r"^\(size_t\)", "", t)
+                        okc = any(strip(captxt) == strip(t) for t in args) and all(t in ("sizeof(char)", "1") or strip(t) == strip(captxt) for t in args)
+                        det = "%s vs allocation %r" % (captxt, args)
+                    if twin: okc = not okc
+                    r.add("call_in_%s.capacity_handed_in_is_the_allocated_size_of_%s" % (host.split("::")[-1], bname), DISCHARGED if okc else FAILED, "ast-facts", 0, det, kind="callsite")
+        r.add("reach.call_sites_with_a_capacity", DISCHARGED if ncall >= 3 else UNDECIDED, "ast-scan", 0, str(ncall), kind="vacuity")
     r.assumptions += ["a BASIC string value has no length limit (string literals, concatenation, PAD$, STR_F$ ...)", "callee names classify a copy: %s are unbounded" % ", ".join(sorted(UNBOUNDED))]
     return r
 
@@ -321,5 +370,5 @@ def unit_no_manufactured_pointers(twin=False):
 def units():
     return [("C08.read_line_LDBLEs.repeated_values_are_stored_inside_the_callers_array", unit_read_line_LDBLEs),
             ("C08.cmddim.element_count_of_an_array_is_the_product_of_its_extents_without_wrap_around", unit_cmddim_sizes),
-            ("C08.stringexpr.string_value_copied_into_the_callers_buffer_within_its_capacity", lambda twin=False: unit_unbounded_copy("stringexpr", 2, "char *", twin)),
+            ("C08.stringexpr.string_value_copied_into_the_callers_buffer_within_its_capacity", lambda twin=False: unit_unbounded_copy("stringexpr", 3, "char *", twin)),
             ("C08.basic_peek_poke.no_memory_access_through_an_address_computed_by_the_program", unit_no_manufactured_pointers)]
